@@ -43,8 +43,16 @@ VF_NOINSTR static void cs_exit(bool writer) {
 static long probe_data;         // plain data protected by the lock under test
 static std::atomic<int> bystander; // a visible op inside the critical section
 
+// "yieldy" drivers give the processor away inside the critical section and
+// right after releasing the lock.  That costs no deviation, so histories in
+// which a slow-path waiter loses the race for the lock several times in a row
+// (holder re-acquires while the waiter sits between its spin-load and its
+// CAS) come within a small deviation bound.
+static bool g_yieldy;
 static void critical(bool writer) {
   cs_enter(writer);
+  if (g_yieldy)
+    galois::substrate::asmPause();
   if (writer)
     probe_data = probe_data * 3 + 1; // plain read+write
   else
@@ -93,7 +101,8 @@ struct PtrA {
 // critical section + unlock when acquired
 template <typename A>
 static void lock_case(std::string name, std::vector<int> topo,
-                      std::vector<std::string> scripts) {
+                      std::vector<std::string> scripts, bool yieldy = false) {
+  g_yieldy = yieldy;
   vf_set_topology(topo.data(), (int)topo.size());
   g_tag = "lock=" + name;
   vf_tag(g_tag.c_str());
@@ -118,6 +127,8 @@ static void lock_case(std::string name, std::vector<int> topo,
         got[tid]++;
         critical(true);
         lock.unlock((int)(tid + i));
+        if (yieldy)
+          galois::substrate::asmPause();
       }
     }
   });
@@ -172,9 +183,9 @@ static void rw_case(std::vector<int> topo, std::vector<std::string> scripts) {
 }
 
 // ---- barrier arrival -> departure -------------------------------------------
-static int bprobe[8];
+static long bprobe[8];
 static void barrier_hb_case(std::string kind, std::vector<int> topo,
-                            unsigned P, int K) {
+                            unsigned P, int K, unsigned P2 = 0) {
   vf_set_topology(topo.data(), (int)topo.size());
   std::string tag = "barrier=" + kind;
   vf_tag(tag.c_str());
@@ -208,12 +219,38 @@ static void barrier_hb_case(std::string kind, std::vector<int> topo,
       for (unsigned j = 0; j < P; ++j) // plain reads after it
         if (bprobe[j] < k)
           vf_note_fail((tag + ":stale-read").c_str(),
-                       "thread %u read phase %d of thread %u after barrier %d",
+                       "thread %u read phase %ld of thread %u after barrier %d",
                        tid, bprobe[j], j, k);
       b->wait(); // separate the reads from the next round's writes
     }
   });
   vf_window_end();
+  if (P2) {
+    // the edge must also hold for the first waits after a re-initialisation
+    // (to another participant count, after an odd number of episodes)
+    galois::setActiveThreads(P2);
+    if (kind == "system")
+      b = &getBarrier(P2);
+    else
+      b->reinit(P2);
+    for (auto& x : bprobe)
+      x = 0;
+    vf_window_begin();
+    galois::on_each([&](unsigned tid, unsigned) {
+      for (int k = 1; k <= 2; ++k) {
+        bprobe[tid] = k;
+        b->wait();
+        for (unsigned j = 0; j < P2; ++j)
+          if (bprobe[j] < k)
+            vf_note_fail((tag + ":after-reinit:stale-read").c_str(),
+                         "thread %u read phase %ld of thread %u after barrier "
+                         "%d",
+                         tid, bprobe[j], j, k);
+        b->wait();
+      }
+    });
+    vf_window_end();
+  }
   vf_finish();
 }
 
@@ -337,7 +374,7 @@ int main(int argc, char** argv) {
   typedef std::vector<std::string> S;
   // mutual exclusion + release->acquire edges
   for (auto sc : {S{"LL", "LL"}, S{"LT", "TL"}, S{"L", "L", "L"},
-                  S{"LT", "T", "L"}}) {
+                  S{"LT", "T", "L"}, S{"LLL", "L"}}) {
     std::string sn;
     for (auto& s : sc)
       sn += (sn.empty() ? "" : "/") + s;
@@ -349,6 +386,17 @@ int main(int argc, char** argv) {
         [=]() { lock_case<PaddedA>("PaddedLock", topo, sc); });
     add("lock=PtrLock script=" + sn, 2, tb,
         [=]() { lock_case<PtrA>("PtrLock", topo, sc); });
+  }
+  for (auto sc : {S{"LLL", "L"}, S{"LL", "L", "L"}}) {
+    std::string sn;
+    for (auto& s : sc)
+      sn += (sn.empty() ? "" : "/") + s;
+    std::vector<int> topo = {(int)sc.size()};
+    int qb = sc.size() == 2 ? 2 : 1, tb = sc.size() == 2 ? 4 : 3;
+    add("lock=SimpleLock yieldy script=" + sn, qb, tb,
+        [=]() { lock_case<SimpleA>("SimpleLock", topo, sc, true); }, 2);
+    add("lock=PtrLock yieldy script=" + sn, qb, tb,
+        [=]() { lock_case<PtrA>("PtrLock", topo, sc, true); }, 2);
   }
   for (auto sc : {S{"WR", "RW"}, S{"W", "R", "R"}, S{"RW", "W"},
                   S{"R", "W", "W"}}) {
@@ -366,6 +414,8 @@ int main(int argc, char** argv) {
         [=]() { barrier_hb_case(kind, {2}, 2, 2); });
     add("hb barrier=" + kind + " topo=[2,1] P=3", 0, 1,
         [=]() { barrier_hb_case(kind, {2, 1}, 3, 2); });
+    add("hb barrier=" + kind + " topo=[1,2] P=2 K=1 reinit=3", 1, 2,
+        [=]() { barrier_hb_case(kind, {1, 2}, 2, 1, 3); });
   }
   // loop entry / exit, normal and fast mode
   for (const char* l : {"on_each", "do_all", "for_each"})
